@@ -72,6 +72,10 @@ func rcOpen(t *testing.T, file string) (*rcOut, func()) {
 		t.Fatal(err)
 	}
 	o := &rcOut{w: w, rep: &rcReport{}}
+	verifsim.OnStall(func() { // a stalled scenario: what was found so far is still written
+		b, _ := json.Marshal(o.rep)
+		os.WriteFile(out+"/"+file, b, 0o644)
+	})
 	return o, func() {
 		o.rep.Events = w.Count()
 		w.Close()
@@ -128,7 +132,7 @@ func TestVerifC18(t *testing.T) {
 	for _, rt := range []time.Duration{time.Millisecond, time.Second, 30 * time.Second} {
 		for _, batched := range []bool{false, true} {
 			name := fmt.Sprintf("A/rt=%v/batched=%v", rt, batched)
-			synctest.Test(t, func(t *testing.T) {
+			verifsim.Bubble(t, func(t *testing.T) {
 				q := 1
 				if batched {
 					q = 2
@@ -231,7 +235,7 @@ func TestVerifC18(t *testing.T) {
 	// ---- B. silent server
 	for _, rt := range []time.Duration{time.Millisecond, time.Second, 30 * time.Second} {
 		name := fmt.Sprintf("B/rt=%v", rt)
-		synctest.Test(t, func(t *testing.T) {
+		verifsim.Bubble(t, func(t *testing.T) {
 			env := newRCEnv(rcOpts{queueSize: 1, readTimeout: rt})
 			defer env.finish()
 			c1 := env.newCall("b1", "get", false)
@@ -271,7 +275,7 @@ func TestVerifC18(t *testing.T) {
 		q := 1 + rng.Intn(3)
 		fi := []time.Duration{0, time.Microsecond * 200}[rng.Intn(2)]
 		name := fmt.Sprintf("C/%d/rt=%v/q=%d/fi=%v", k, rt, q, fi)
-		synctest.Test(t, func(t *testing.T) {
+		verifsim.Bubble(t, func(t *testing.T) {
 			jrng := rand.New(rand.NewSource(seed*7777 + int64(k)))
 			var jmu sync.Mutex
 			jitter := func(point string, arg any) { // outside every lock: send.* and recv.* hook points
